@@ -1,5 +1,6 @@
 //! verif-harness: drives the real Rust core (built from a scratch copy of /repo/sc62015/core)
 //! through its public API.  One case per stdin line, one answer line per case.
+mod kbd_cmd;
 mod lcd_cmd;
 mod regs_cmd;
 mod timer_cmd;
@@ -19,6 +20,7 @@ fn handle(words: &[&str]) -> String {
         Some("timer_rs") => timer_cmd::run(&words[1..]),
         Some("regs_rs") => regs_cmd::run(&words[1..]),
         Some("lcd_rs") => lcd_cmd::run(&words[1..]),
+        Some("kbd_rs") => kbd_cmd::run(&words[1..]),
         Some(c) => format!("ERR unknown-command {c}"),
         None => "ERR empty".to_string(),
     }
